@@ -10,7 +10,7 @@ import ast
 from typing import Any, Optional
 
 from ..absval import BoundMethod, Interp, Obj, Outcome, Sym, Unknown, enumerate_paths
-from ..model import AnchorMissing, Class, Func, Program, Undecided, norm
+from ..model import AnchorMissing, Class, Func, Program, Undecided, norm, walk_no_nested
 from .common import make_metric_objs, metric_enum_class, metric_registry
 
 SCENARIOS = ["NO_INSTANCES", "EMPTY_PRED", "EMPTY_REF", "NORMAL"]
@@ -53,6 +53,11 @@ class Tagged:
         return f"{self.name}({', '.join(map(repr, self.args))}{kw})"
 
 
+class _FluentM:
+    def __init__(self, obj, method):
+        self.obj, self.method = obj, method
+
+
 class ResultInterp(Interp):
     """Interp specialised for the result/edge-case classes."""
 
@@ -91,9 +96,22 @@ class ResultInterp(Interp):
             return base.attrs["value"]
         if isinstance(base, str):
             return _StrMethod(base, attr)
+        if isinstance(base, Tagged):
+            # an object whose construction is an observation point (not inlined): a method of its
+            # class all of whose returns hand back `self` (fluent bookkeeping) yields the object itself
+            cname = base.name.split(":")[-1].split(".")[-1]
+            for c in self.prog.classes.values():
+                if c.name == cname:
+                    m = c.lookup(attr)
+                    if m is not None and m.self_name and not m.is_property:
+                        rets = [r for r in walk_no_nested(m.node) if isinstance(r, ast.Return)]
+                        if rets and all(isinstance(r.value, ast.Name) and r.value.id == m.self_name for r in rets):
+                            return _FluentM(base, m)
         return super().get_attr(base, attr, node)
 
     def apply(self, fv, args, kwargs, node):
+        if isinstance(fv, _FluentM):
+            return fv.obj
         if isinstance(fv, _ReM):
             if fv.name in ("match", "fullmatch", "search") and args and isinstance(args[0], str):
                 return getattr(fv.rv.rx, fv.name)(args[0]) is not None
